@@ -152,6 +152,14 @@ pub fn node(args: &Args) {
         seed[0] = (case % 251) as u8;
         let world = World::new(policy, seed, KeyDerivationStyle::Native);
         let mut node = world.new_node();
+        // one case in three: the operator has allowlisted the payees (the keysend destination and the
+        // key the BOLT11 invoices are signed with); the velocity control counts their approvals all the same
+        let payees_allowlisted = case % 3 == 1;
+        if payees_allowlisted {
+            let secp = Secp256k1::new();
+            let inv_payee = PublicKey::from_secret_key(&secp, &SecretKey::from_slice(&[42u8; 32]).unwrap());
+            node.add_allowlist(&vec![format!("payee:{}", payee()), format!("payee:{}", inv_payee)]).expect("allowlist payees");
+        }
         let node_id = node.get_id();
         let len = 2 + rng.below(12) as usize;
         let mut now = rng.below(1_000_000);
@@ -377,7 +385,7 @@ pub fn node(args: &Args) {
         let coq_f = format!("(({}, {}), {}, {})", f_name, f_limit, coq_list(&f_ops), coq_list(&f_obs));
         emit(
             "CASE",
-            json!({"id": case, "kind": "node", "pay_spec": [p_name, p_limit], "fee_spec": [f_name, f_limit], "ops": jops,
+            json!({"id": case, "kind": "node", "payees_allowlisted": payees_allowlisted, "pay_spec": [p_name, p_limit], "fee_spec": [f_name, f_limit], "ops": jops,
                    "monitor_violation_pay": viol_json(p_viol), "monitor_violation_fee": viol_json(f_viol),
                    "coq_pay": coq_p, "coq_fee": coq_f}),
         );
